@@ -54,7 +54,9 @@ def worldOp (op : String) (a : List Int) : Option String :=
                 | "wd.rep" => some (World.repay c amount (s2b fl))
                 | "wd.close" => some (World.closeBalance c)
                 | _ => none
-              if op == "wd.bkr" then
+              if op == "wd.endfl" then
+                some (showResB ((World.endFlashloan c amount.toNat).map fun f => s!"{f}"))
+              else if op == "wd.bkr" then
                 some (showResB ((World.bankruptcy c amount).map fun o =>
                   s!"{showSlots7 o.slots} {showBank o.books} {o.books.lastUpdate} {o.insuranceTokens} {o.opState} {o.flags}"))
               else
